@@ -7,7 +7,7 @@
 //! library.  The only optional extra is a Relaxed stamp counter (`--stamped`), which adds no
 //! happens-before edge and is used to measure which interleaving happened.
 //!
-//!   mirisched --mode concurrent|serial|baton|single --threads T --hseed H --ops K
+//!   mirisched --mode concurrent|serial|baton|single --threads T --hseed H --ops K [--long N]
 //!             [--order 0,1,0,...] [--perm 1,0,2] [--stamped] [--main-participates] [--draws N]
 //!
 //! Output (stdout), one line each:
@@ -19,6 +19,14 @@
 use rlib_treap::{Treap, TreapItem, TreapItemSized, TreapNode};
 use std::sync::atomic::{AtomicU64, AtomicUsize, Ordering};
 use std::sync::Arc;
+
+/// The item type stored in a thread's treap.  Threads use DIFFERENT item types (hence different
+/// node layouts): shared state keyed on anything layout-dependent (allocation caches, pools)
+/// is only exercised when the layouts differ.
+trait ItemLike: TreapItem + TreapItemSized + Send + 'static {
+    fn make(id: u32) -> Self;
+    fn id(&self) -> u32;
+}
 
 struct Item {
     id: u32,
@@ -32,6 +40,39 @@ impl TreapItem for Item {
 impl TreapItemSized for Item {
     fn size(&self) -> usize {
         self.sz
+    }
+}
+impl ItemLike for Item {
+    fn make(id: u32) -> Self {
+        Item { id, sz: 1 }
+    }
+    fn id(&self) -> u32 {
+        self.id
+    }
+}
+
+struct BigItem {
+    id: u32,
+    sz: usize,
+    pad: [u64; 5],
+}
+impl TreapItem for BigItem {
+    fn update(&mut self, l: Option<&Self>, r: Option<&Self>) {
+        self.sz = l.map(|i| i.sz).unwrap_or(0) + r.map(|i| i.sz).unwrap_or(0) + 1;
+        self.pad[0] = self.sz as u64;
+    }
+}
+impl TreapItemSized for BigItem {
+    fn size(&self) -> usize {
+        self.sz
+    }
+}
+impl ItemLike for BigItem {
+    fn make(id: u32) -> Self {
+        BigItem { id, sz: 1, pad: [id as u64; 5] }
+    }
+    fn id(&self) -> u32 {
+        self.id
     }
 }
 
@@ -72,22 +113,47 @@ struct ThreadOut {
     func: String,
 }
 
-fn find_priority(node: &Option<Box<TreapNode<Item>>>, id: u32) -> Option<u32> {
+fn find_priority<T: ItemLike>(node: &Option<Box<TreapNode<T>>>, id: u32) -> Option<u32> {
     let n = node.as_ref()?;
-    if n.item.id == id {
+    if n.item.id() == id {
         return Some(n.priority);
     }
     find_priority(&n.left, id).or_else(|| find_priority(&n.right, id))
 }
 
 /// One thread's private history.  Every node-creating step creates exactly one node.
-fn history(tid: usize, hseed: u64, ops: usize, stamped: bool, baton: Option<&Baton>) -> ThreadOut {
+/// Thread `tid`'s history with the item type chosen by the thread index.
+fn history(tid: usize, hseed: u64, ops: usize, long: usize, churn: usize, stamped: bool, baton: Option<&Baton>) -> ThreadOut {
+    if tid % 2 == 1 {
+        history_t::<BigItem>(tid, hseed, ops, long, churn, stamped, baton)
+    } else {
+        history_t::<Item>(tid, hseed, ops, long, churn, stamped, baton)
+    }
+}
+
+fn history_t<T: ItemLike>(tid: usize, hseed: u64, ops: usize, long: usize, churn: usize, stamped: bool, baton: Option<&Baton>) -> ThreadOut {
     let mut rng = hseed ^ ((tid as u64 + 1) << 32);
-    let mut t: Treap<Item> = Treap::new();
+    let mut t: Treap<T> = Treap::new();
     let mut model: Vec<u32> = Vec::new();
     let mut out = ThreadOut { prios: Vec::new(), stamps: Vec::new(), func: String::new() };
-    let mut next_id = (tid as u32) * 1000 + 1;
+    let mut next_id = (tid as u32) * 100_000 + 1;
     let mut mismatch: Option<String> = None;
+    // optional long prefix of bare node creations: anything that happens only every N draws
+    // (periodic re-seeding, batched statistics, block reservations) needs many draws per thread
+    for _ in 0..long {
+        if let Some(b) = baton {
+            b.acquire(tid);
+        }
+        let node = TreapNode::new(T::make(next_id));
+        next_id += 1;
+        if stamped {
+            out.stamps.push(STAMP.fetch_add(1, Ordering::Relaxed));
+        }
+        if let Some(b) = baton {
+            b.release();
+        }
+        out.prios.push(node.priority);
+    }
     for step in 0..ops {
         let r = splitmix(&mut rng);
         let len = model.len();
@@ -102,7 +168,7 @@ fn history(tid: usize, hseed: u64, ops: usize, stamped: bool, baton: Option<&Bat
             match (r / 10) % 3 {
                 0 => {
                     // explicit node, inserted with public split_at + merge
-                    let node = TreapNode::new(Item { id, sz: 1 });
+                    let node = TreapNode::new(T::make(id));
                     prio = node.priority;
                     let pos = ((r / 100) as usize) % (len + 1);
                     let (l, rr) = std::mem::replace(&mut t, Treap::new()).split_at(pos);
@@ -111,12 +177,12 @@ fn history(tid: usize, hseed: u64, ops: usize, stamped: bool, baton: Option<&Bat
                 }
                 1 => {
                     let pos = ((r / 100) as usize) % (len + 1);
-                    t.insert_at(pos, Item { id, sz: 1 });
+                    t.insert_at(pos, T::make(id));
                     model.insert(pos, id);
                     prio = find_priority(&t.root, id).expect("new node not found");
                 }
                 _ => {
-                    let single = Treap::from_item(Item { id, sz: 1 });
+                    let single = Treap::from_item(T::make(id));
                     prio = single.root.as_ref().map(|n| n.priority).expect("from_item root");
                     t = Treap::merge(std::mem::replace(&mut t, Treap::new()), single);
                     model.push(id);
@@ -133,7 +199,7 @@ fn history(tid: usize, hseed: u64, ops: usize, stamped: bool, baton: Option<&Bat
             match r % 10 {
                 6 => {
                     let pos = ((r / 100) as usize) % len;
-                    let got = t.remove_at(pos).id;
+                    let got = t.remove_at(pos).id();
                     let want = model.remove(pos);
                     if got != want && mismatch.is_none() {
                         mismatch = Some(format!("step {}: remove_at({}) gave {} expected {}", step, pos, got, want));
@@ -146,7 +212,7 @@ fn history(tid: usize, hseed: u64, ops: usize, stamped: bool, baton: Option<&Bat
                     model.rotate_left(pos);
                 }
                 8 => {
-                    let (f, l) = (t.first().map(|i| i.id), t.last().map(|i| i.id));
+                    let (f, l) = (t.first().map(|i| i.id()), t.last().map(|i| i.id()));
                     if (f, l) != (model.first().copied(), model.last().copied()) && mismatch.is_none() {
                         mismatch = Some(format!("step {}: first/last {:?}/{:?}", step, f, l));
                     }
@@ -159,7 +225,37 @@ fn history(tid: usize, hseed: u64, ops: usize, stamped: bool, baton: Option<&Bat
             }
         }
     }
-    let got: Vec<u32> = t.collect().into_iter().map(|i| i.id).collect();
+    // optional churn phase: remove one element, insert a new one, many times over - node
+    // allocations are freed and made at a high rate on every thread at once
+    for round in 0..churn {
+        if model.is_empty() {
+            break;
+        }
+        let r = splitmix(&mut rng);
+        let pos = (r as usize) % model.len();
+        let got = t.remove_at(pos).id();
+        let want = model.remove(pos);
+        if got != want && mismatch.is_none() {
+            mismatch = Some(format!("churn {}: remove_at({}) gave {} expected {}", round, pos, got, want));
+        }
+        let id = next_id;
+        next_id += 1;
+        let ipos = ((r >> 20) as usize) % (model.len() + 1);
+        if let Some(b) = baton {
+            b.acquire(tid);
+        }
+        t.insert_at(ipos, T::make(id));
+        model.insert(ipos, id);
+        let prio = find_priority(&t.root, id).expect("new node not found");
+        if stamped {
+            out.stamps.push(STAMP.fetch_add(1, Ordering::Relaxed));
+        }
+        if let Some(b) = baton {
+            b.release();
+        }
+        out.prios.push(prio);
+    }
+    let got: Vec<u32> = t.collect().into_iter().map(|i| i.id()).collect();
     if got != model && mismatch.is_none() {
         mismatch = Some(format!("final collect {:?} expected {:?}", got, model));
     }
@@ -192,6 +288,8 @@ fn main() {
     let threads: usize = arg(&args, "--threads").and_then(|s| s.parse().ok()).unwrap_or(2);
     let hseed: u64 = arg(&args, "--hseed").and_then(|s| s.parse().ok()).unwrap_or(1);
     let ops: usize = arg(&args, "--ops").and_then(|s| s.parse().ok()).unwrap_or(10);
+    let long: usize = arg(&args, "--long").and_then(|s| s.parse().ok()).unwrap_or(0);
+    let churn: usize = arg(&args, "--churn").and_then(|s| s.parse().ok()).unwrap_or(0);
     let stamped = args.iter().any(|a| a == "--stamped");
     let main_participates = args.iter().any(|a| a == "--main-participates");
 
@@ -207,7 +305,7 @@ fn main() {
             let perm = arg(&args, "--perm").map(|s| list(&s)).unwrap_or_else(|| (0..threads).collect());
             let mut outs: Vec<Option<ThreadOut>> = (0..threads).map(|_| None).collect();
             for &tid in &perm {
-                let h = std::thread::spawn(move || history(tid, hseed, ops, stamped, None));
+                let h = std::thread::spawn(move || history(tid, hseed, ops, long, churn, stamped, None));
                 outs[tid] = Some(h.join().unwrap());
             }
             for (tid, o) in outs.iter().enumerate() {
@@ -221,7 +319,7 @@ fn main() {
             let hs: Vec<_> = (0..threads)
                 .map(|tid| {
                     let b = baton.clone();
-                    std::thread::spawn(move || history(tid, hseed, ops, stamped, Some(&b)))
+                    std::thread::spawn(move || history(tid, hseed, ops, long, churn, stamped, Some(&b)))
                 })
                 .collect();
             for (tid, h) in hs.into_iter().enumerate() {
@@ -231,10 +329,10 @@ fn main() {
         _ => {
             // concurrent: the schedule is whatever the (Miri) scheduler decides
             let first = if main_participates { 1 } else { 0 };
-            let hs: Vec<_> = (first..threads).map(|tid| std::thread::spawn(move || history(tid, hseed, ops, stamped, None))).collect();
+            let hs: Vec<_> = (first..threads).map(|tid| std::thread::spawn(move || history(tid, hseed, ops, long, churn, stamped, None))).collect();
             let mut outs: Vec<ThreadOut> = Vec::new();
             if main_participates {
-                outs.push(history(0, hseed, ops, stamped, None));
+                outs.push(history(0, hseed, ops, long, churn, stamped, None));
             }
             for h in hs {
                 outs.push(h.join().unwrap());
